@@ -49,16 +49,12 @@ fn tinylfu_builder_validates() {
 #[kani::proof]
 #[kani::unwind(10)]
 fn tinylfu_clone_is_identical_then_independent() {
-    // arbitrary valid estimator state (small sketch, one-word doorkeeper)
-    let nbytes: usize = kani::any();
-    kani::assume(nbytes == 1 || nbytes == 2 || nbytes == 4);
-    let locs: u64 = kani::any();
-    kani::assume(locs >= 1 && locs <= 2);
+    // structurally minimal estimator (rows of 2 counters, one doorkeeper word, one probe) with arbitrary contents
     let samples: usize = kani::any();
     let w: usize = kani::any();
-    kani::assume(samples >= 1 && samples <= 4 && w < samples);
+    kani::assume(samples >= 1 && samples <= 3 && w < samples);
     kani::cover!(w > 0, "clone taken inside a sample window");
-    let mut t: TinyLFU<u8, ByteKeyHasher> = TinyLFU::verif_small(kani::any(), nbytes, kani::any(), kani::any(), locs, samples, w, ByteKeyHasher);
+    let mut t: TinyLFU<u8, ByteKeyHasher> = TinyLFU::verif_small(kani::any(), 1, kani::any(), kani::any(), 1, samples, w, ByteKeyHasher);
     let pre = t.verif_abs();
     let mut c = t.clone();
     assert!(c.verif_abs() == pre, "[C16.estimator] a cloned TinyLFU has the same window position, sample size, sketch counters and doorkeeper bits");
